@@ -6,6 +6,7 @@ mod gen;
 mod genvalid;
 mod jobs;
 mod op_misc;
+mod op_introspect;
 mod op_trace;
 mod op_transform;
 mod op_validate;
@@ -218,6 +219,7 @@ fn emit(prop: &str, tier: &str, seed: u64, shard: (usize, usize), out: &str, rep
         }
         let si = &schemas[c.schema];
         let doc_ast = match &c.doc {
+            Some(_) if c.op == "introspect" => None, // the "document" of these cases is JSON text
             Some(text) => match graphql_tools::parser::parse_query::<String>(text) {
                 Ok(d) => Some(d.into_static()),
                 Err(_) => {
